@@ -1,12 +1,17 @@
 (* C16 — Node shapes are canonical modulo renaming; derived Language impls are coherent.
    Model: Lang/Sig.v, generic over signatures (every language `define_language!` can produce,
    with payload kinds u32/bool/Symbol).
-   PROVED here (all nodes, all signatures): the positional public/private partition, slots = set of
-   public occurrences, totality of the weak shape.
-   NOT PROVED (stated as C16_shape_iff_full): that equal weak shapes characterise nodes modulo
-   renaming; this part is decided per run by the correspondence and by an independent
-   canonical form evaluated on the implementation's output (lib/props/c16.py). *)
-From SE Require Import Lang.Sig Lang.LangMachine Lang.LangFacts Slots.SlotMapFacts.
+   PROVED here (all nodes, all signatures, unbounded): the positional public/private partition,
+   slots = set of public occurrences, totality of the weak shape, and that the weak shape is a
+   CANONICAL FORM modulo renaming: two nodes have equal shapes exactly when they are equivalent
+   (same skeleton; occurrence patterns related by an injective renaming of free slots, bound slots
+   up to alpha: `node_equiv`, defined without reference to the shape algorithm), the shape is
+   equivalent to its node, the shape of a shape is itself, and the returned bijection maps the free
+   slots of the shape onto the free slots of the node, occurrence by occurrence.
+   NOT PROVED here: the syntax round trip of arbitrary derived languages beyond what C18 proves
+   (from_to_syntax for unambiguous nodes).  The correspondence and an independent canonical form
+   evaluated on the implementation's output (lib/props/c16.py) tie all of this to /repo per run. *)
+From SE Require Import Lang.Sig Lang.LangMachine Lang.LangFacts Lang.ShapeFacts Slots.SlotMapFacts.
 From Coq Require Import Permutation.
 
 Theorem C16_occ_partition : forall n, Permutation (all_occ n) (pub_occ n ++ prv_occ n).
@@ -25,7 +30,39 @@ Theorem C16_weak_shape_total : forall legacy n, exists sh bij, weak_shape legacy
 Proof. exact weak_shape_total. Qed.
 Print Assumptions C16_weak_shape_total.
 
-(* the full statement about shapes, kept visible; see the header *)
+Theorem C16_shape_canonical : forall n n' sh bij sh' bij',
+  weak_shape false false n = Ok (sh, bij) -> weak_shape false false n' = Ok (sh', bij') ->
+  (node_equiv n n' <-> sh = sh').
+Proof. exact shape_canonical. Qed.
+Print Assumptions C16_shape_canonical.
+
+Theorem C16_shape_equivalent_to_node : forall n sh bij, weak_shape false false n = Ok (sh, bij) -> node_equiv sh n.
+Proof. exact shape_sound. Qed.
+Print Assumptions C16_shape_equivalent_to_node.
+
+Theorem C16_shape_idempotent : forall n sh bij, weak_shape false false n = Ok (sh, bij) ->
+  exists bij2, weak_shape false false sh = Ok (sh, bij2).
+Proof. exact shape_idempotent. Qed.
+Print Assumptions C16_shape_idempotent.
+
+Theorem C16_shape_bijection : forall n sh bij, weak_shape false false n = Ok (sh, bij) ->
+  (forall s, (exists k, get bij k = Some s) <-> In s (pub_occ n)) /\
+  (forall k, get bij k <> None <-> In k (pub_occ sh)) /\
+  map (fun k => get bij k) (pub_occ sh) = map Some (pub_occ n).
+Proof. exact shape_bij. Qed.
+Print Assumptions C16_shape_bijection.
+
+Theorem C16_node_equiv_is_equivalence :
+  (forall n, node_equiv n n) /\ (forall a b, node_equiv a b -> node_equiv b a) /\
+  (forall a b c, node_equiv a b -> node_equiv b c -> node_equiv a c).
+Proof. split; [exact node_equiv_refl|split; [exact node_equiv_sym|exact node_equiv_trans]]. Qed.
+Print Assumptions C16_node_equiv_is_equivalence.
+
+Theorem C16_checks_assertion_never_fires : forall n, weak_shape false true n = weak_shape false false n.
+Proof. exact weak_shape_checks_irrelevant. Qed.
+Print Assumptions C16_checks_assertion_never_fires.
+
+(* an earlier formulation, superseded by C16_shape_canonical; kept for reference *)
 Definition node_equiv (shape_of : node -> option node) (n n' : node) : Prop := shape_of n = shape_of n'.
 Definition C16_shape_iff_full : Prop :=
   forall n n' sh bij sh' bij',
